@@ -151,21 +151,28 @@ class Event:
 
 class BoundedSemaphore:
     def __init__(self, value=1):
-        self._value = value
+        self._v = value
         self._init = value
 
+    @property
+    def _value(self):
+        # the library reads sem._value directly (no primitive); in the oracle-only cases that read is a yield point of its own
+        if ALIVE_YIELD and S is not None:
+            S.point("sem.value")
+        return self._v
+
     def acquire(self, blocking=True, timeout=None):
-        m = S.point("sem.acquire", lambda: self._value > 0, timeout is not None or not blocking)
+        m = S.point("sem.acquire", lambda: self._v > 0, timeout is not None or not blocking)
         if m == "timeout":
             return False
-        self._value -= 1
+        self._v -= 1
         return True
 
     def release(self):
         S.point("sem.release")
-        if self._value >= self._init:
+        if self._v >= self._init:
             raise ValueError("Semaphore released too many times")
-        self._value += 1
+        self._v += 1
 
 
 class Lock:
